@@ -30,7 +30,8 @@ type crashCtx struct {
 	imgRoot       string
 	rng           *vrt.Rand
 	images        int
-	followBatches int // batches to commit in the follow-up after a recovery (C04)
+	followBatches int   // batches to commit in the follow-up after a recovery (C04)
+	clockBack     int64 // when > 0: the recovery starts with the wall clock stepped back to this instant
 }
 
 // runCrash executes the workload once (fault-free, journalled), then rebuilds the directory as it would be after
@@ -384,7 +385,14 @@ func (ctx *crashCtx) recoverGeneric(tree *vos.Tree, cfg Config, journalOn bool, 
 	rec.fs = fs
 	vos.Cur = fs
 	vsync.ResetPools() // a fresh process has empty pools
-	vclock.Advance(2 * time.Second)
+	if ctx.clockBack > 0 {
+		// the wall clock was stepped back while the process was down (NTP, operator, VM restore): the new process
+		// starts at the very instant the operation in flight at the crash had begun
+		vclock.Jump(ctx.clockBack)
+		r.inc("fault_clock_stepped_back")
+	} else {
+		vclock.Advance(2 * time.Second)
+	}
 	s := vrt.NewSched(vrt.Policy{Mode: "seq"})
 	s.Go("recovery", func() {
 		if pre != nil {
@@ -499,7 +507,9 @@ func (ctx *crashCtx) checkImage(k int, cut map[int]int, power bool, pos2 int) {
 	cfg := ctx.cfgAtPos(k)
 	r.judging = true
 	r.step = k
-	pin := func(p2 int) { r.C.Crash = &Crash{Pos: k, Cut: cut, Power: power, Pos2: p2 + 1} }
+	pin := func(p2 int) {
+		r.C.Crash = &Crash{Pos: k, Cut: cut, Power: power, Pos2: p2 + 1, ClockBack: ctx.clockBack > 0 || (r.C.Crash != nil && r.C.Crash.ClockBack)}
+	}
 	kind := "process"
 	if power {
 		kind = "power"
@@ -548,9 +558,20 @@ func (ctx *crashCtx) checkImage(k int, cut map[int]int, power bool, pos2 int) {
 		// torn tail is the interesting case), every third process-crash image otherwise
 		follow = ctx.usability(cfg)
 	}
+	ctx.clockBack = 0
+	if (r.C.Prop == "C04" || r.C.Prop == "C03") && follow != nil && k > 0 && (r.C.Crash == nil && ctx.images%2 == 1 || r.C.Crash != nil && r.C.Crash.ClockBack) {
+		if op := ctx.journal[k-1].Op; op >= 0 && op < len(r.opClock) {
+			ctx.clockBack = r.opClock[op]
+		}
+	}
+	clockBack := ctx.clockBack > 0
 	rec := ctx.recoverImage(tree, cfg, journalOn, follow)
+	ctx.clockBack = 0
 	defer os.RemoveAll(rec.root)
 	where := ctx.describe(k, cut, power)
+	if clockBack {
+		where += "; the wall clock was stepped back to the start of that operation while the process was down"
+	}
 	if rec.oracle == "infra" {
 		r.Infra = rec.failure
 		return
